@@ -1,4 +1,191 @@
-(* placeholder until the proofs land *)
-Require Import Puan.Base Puan.Plog Puan.Sem Puan.Cons Puan.Json.
-Example C16_placeholder : True. Proof. exact I. Qed.
-Print Assumptions C16_placeholder.
+(* C16 — JSON round trip preserves meaning, explicit ids and signs.
+   Only statements, `exact`, non-vacuity examples, refutation witnesses and Print Assumptions live here.
+   Model side: Json.to_json / Json.from_json (every class of puan.logic.plog, after fixes D5, D7, D9; fuelled,
+   a `Some` result excludes fuel exhaustion and malformed documents), Cons.build (the constructors).
+   Spec side: Sem.eval / Sem.ok (arithmetic truth function, leaf values within bounds) and
+   JsonFacts.jsem — the arithmetic meaning of a DOCUMENT, which mentions neither to_json nor from_json:
+     variable            -> env id           (defined only when the value is within the documented bounds)
+     AtLeast             -> [value <= sign * S]   (sign absent: + if value > 0 else -)
+     AtMost              -> [S <= value]
+     All / Stingy        -> [number of operands <= S]
+     Any                 -> [1 <= S]
+     Xor / ExactlyOne    -> [S = 1]
+     XNor                -> [S <> 1]
+     Not                 -> 1 - operand       (a bare variable operand x stands for All(x) = [1 <= x])
+     Imply               -> [1 <= (1 - condition) + consequence]   (same convention for a bare variable condition)
+   where S is the sum of the meanings of the "propositions".
+   Shape predicates (JsonFacts): cls_inv p — every class tag of p keeps its promise (AtMost has sign -1, All has
+   value = number of children and the default sign, Any is [1 <= S], Xor is All over [AtLeast 1 X; AtMost 1 X],
+   Imply has two children with its stored condition a compound, ...); xnor_flat p — the operands of every XNor
+   are leaves (excludes finding D6); all_unmerged genid cfg n j — no All(...) rebuilt by from_json has two
+   arguments merged by the set() in All.__init__ (true whenever rebuilt sibling ids are distinct; needed because
+   the id generator is arbitrary here, so generated ids of rebuilt siblings may collide). *)
+Require Import Puan.Base Puan.Plog Puan.Sem Puan.Cons Puan.Json Puan.JsonFacts.
+Open Scope list_scope.
+Open Scope string_scope.
+Open Scope Z_scope.
+
+(* ---- ids: for every class, the document carries an "id" exactly when the id was given explicitly ---- *)
+Theorem C16_ids :
+  forall (genid : genid_t) (n : nat) (p : prop) (f : list (string * json)),
+    to_json genid n p = Some (JObj f) ->
+    alookup "id" f = if gen_of p then None else Some (JStr (id_of p)).
+Proof. exact to_json_ids. Qed.
+Print Assumptions C16_ids.
+
+(* ---- signs (fix D5): an AtLeast node's document carries "sign" exactly when the sign is not the
+   default one for its value, and from_json reads sign and value back ---- *)
+Theorem C16_sign :
+  forall (genid : genid_t) (cfg : bool) (n n' : nat) m i g lo hi s v ch,
+    m_cls m = KAtLeast ->
+    (forall f, to_json genid n (Node m i g lo hi s v ch) = Some (JObj f) ->
+       alookup "sign" f = (if s =? default_sign v then None else Some (JInt s)) /\
+       alookup "value" f = Some (JInt v) /\ alookup "type" f = Some (JStr "AtLeast")) /\
+    (forall j p', to_json genid n (Node m i g lo hi s v ch) = Some j -> from_json genid cfg n' j = Some p' ->
+       sign_of p' = s /\ value_of p' = v).
+Proof.
+  intros genid cfg n n' m i g lo hi s v ch Ec. split.
+  - intros f. exact (to_json_sign genid n m i g lo hi s v ch f Ec).
+  - intros j p'. exact (roundtrip_sign genid cfg n n' m i g lo hi s v ch j p' Ec).
+Qed.
+Print Assumptions C16_sign.
+
+(* ---- the document of a model means what the model evaluates to ---- *)
+Theorem C16_to_json_sem :
+  forall (genid : genid_t) (env : ident -> Z) (n : nat) (p : prop) (j : json),
+    to_json genid n p = Some j -> cls_inv p -> xnor_flat p -> ok env p ->
+    jsem env n j = Some (eval env p).
+Proof. exact to_json_sem. Qed.
+Print Assumptions C16_to_json_sem.
+
+(* ---- the model rebuilt from a document evaluates to what the document means (any document, not
+   only to_json outputs; class map of plog.from_json) ---- *)
+Theorem C16_from_json_sem :
+  forall (genid : genid_t) (env : ident -> Z) (n m : nat) (j : json) (p' : prop) (v : Z),
+    from_json genid false n j = Some p' -> jsem env m j = Some v -> all_unmerged genid false n j = true ->
+    eval env p' = v /\ ok env p'.
+Proof.
+  intros genid env n m j p' v H1 H2 H3. destruct (from_json_sem genid env n m j p' v H1 H2 H3) as (E & O & _). exact (conj E O).
+Qed.
+Print Assumptions C16_from_json_sem.
+
+(* ---- semantic round trip, every plog class, any nesting, integer leaves, explicit signs, any id generator ---- *)
+Theorem C16_sem :
+  forall (genid : genid_t) (env : ident -> Z) (n n' : nat) (p : prop) (j : json) (p' : prop),
+    to_json genid n p = Some j -> from_json genid false n' j = Some p' ->
+    cls_inv p -> xnor_flat p -> ok env p -> all_unmerged genid false n' j = true ->
+    eval env p' = eval env p /\ ok env p'.
+Proof. intros genid env n n' p j p'. exact (roundtrip_sem genid env n n' p j p'). Qed.
+Print Assumptions C16_sem.
+
+(* ---- ids through the round trip: a generated id stays generated, an explicit id is kept ---- *)
+Theorem C16_id_roundtrip :
+  forall (genid : genid_t) (n n' : nat) (p : prop) (j : json) (p' : prop),
+    to_json genid n p = Some j -> from_json genid false n' j = Some p' ->
+    gen_of p' = gen_of p /\ (gen_of p = false -> id_of p' = id_of p).
+Proof. exact roundtrip_id. Qed.
+Print Assumptions C16_id_roundtrip.
+
+(* ---- same leaf variables with the same bounds (pleaves: the (id, bounds) of every leaf occurrence) ---- *)
+Theorem C16_leaves :
+  forall (genid : genid_t) (n n' : nat) (p : prop) (j : json) (p' : prop),
+    to_json genid n p = Some j -> from_json genid false n' j = Some p' -> cls_inv p -> xnor_flat p ->
+    forall x : ident * (Z * Z), In x (pleaves p') <-> In x (pleaves p).
+Proof. exact roundtrip_leaves. Qed.
+Print Assumptions C16_leaves.
+
+(* ---- the constructors produce models that satisfy the shape hypotheses of C16_sem ---- *)
+Theorem C16_shapes :
+  forall (genid : genid_t) (env : ident -> Z) (f : form),
+    (jwf genid f -> cls_inv (build genid f)) /\
+    (xnor_leaves f -> xnor_flat (build genid f)) /\
+    (fok env f -> ok env (build genid f)).
+Proof.
+  intros genid env f. split; [exact (build_cls_inv genid f)|]. split; [exact (build_xnor_flat genid f)|exact (build_ok genid env f)].
+Qed.
+Print Assumptions C16_shapes.
+
+(* ---- hence: semantic round trip of every constructor output ---- *)
+Theorem C16_sem_build :
+  forall (genid : genid_t) (env : ident -> Z) (n n' : nat) (f : form) (j : json) (p' : prop),
+    jwf genid f -> xnor_leaves f -> fok env f ->
+    to_json genid n (build genid f) = Some j -> from_json genid false n' j = Some p' ->
+    all_unmerged genid false n' j = true ->
+    eval env p' = eval env (build genid f).
+Proof.
+  intros genid env n n' f j p' Hw Hx Ho H1 H2 Hg.
+  exact (proj1 (roundtrip_sem genid env n n' (build genid f) j p' H1 H2 (build_cls_inv genid f Hw) (build_xnor_flat genid f Hx) (build_ok genid env f Ho) Hg)).
+Qed.
+Print Assumptions C16_sem_build.
+
+(* ---- witnesses ---- *)
+Definition c16_ones (p : positive) : string := String.concat "" (map (fun _ => "i") (seq 0 (Pos.to_nat p))).
+Definition c16_zs (z : Z) : string := match z with Z0 => "0" | Zpos p => "p" ++ c16_ones p | Zneg p => "n" ++ c16_ones p end.
+(* an injective id generator *)
+Definition c16_g : genid_t :=
+  fun ids v s => "V" ++ String.concat "_" ids ++ "#" ++ c16_zs v ++ match s with None => "N" | Some s => c16_zs s end.
+
+(* finding D6: XNor(Any(a,b), c, d).  XNor.to_json serialises propositions[0].negate().propositions; with a
+   compound operand that list is not the operand list: the document reads XNor(AtLeast(1,[a,b]), AtLeast(1,[c,d]))
+   and at a=b=0, c=d=1 the original is 1 (two operands true) while the round-tripped model is 0. *)
+Definition c16_x : form := FXNor None [FAny None [FLeaf "a" 0 1; FLeaf "b" 0 1]; FLeaf "c" 0 1; FLeaf "d" 0 1].
+Definition c16_xenv : ident -> Z := fun i => if String.eqb i "c" then 1 else if String.eqb i "d" then 1 else 0.
+Theorem C16_xnor_refuted :
+  exists (genid : genid_t) (f : form) (env : ident -> Z) (j : json) (p' : prop),
+    jwf genid f /\ fok env f /\ cls_inv (build genid f) /\
+    to_json genid 10 (build genid f) = Some j /\ from_json genid false 10 j = Some p' /\
+    all_unmerged genid false 10 j = true /\
+    eval env (build genid f) = 1 /\ eval env p' = 0.
+Proof.
+  exists c16_g, c16_x, c16_xenv. eexists. eexists.
+  split; [vm_compute; tauto|]. split; [vm_compute; repeat split; discriminate|].
+  split; [apply build_cls_inv; vm_compute; tauto|].
+  split; [vm_compute; reflexivity|]. split; [vm_compute; reflexivity|].
+  vm_compute. auto.
+Qed.
+Print Assumptions C16_xnor_refuted.
+
+(* finding D13: the bounds of a compound's own variable are not serialised: AtLeast(1,[a], variable=(N1,(1,1)))
+   comes back with bounds (0,1), so the value fixed by the declaration (Sem.eval_c) is lost *)
+Definition c16_pf : form := FAtLeast (Some ("N1", (1, 1))) 1 None [FLeaf "a" 0 1].
+Theorem C16_prefixed_refuted :
+  exists (genid : genid_t) (f : form) (env : ident -> Z) (j : json) (p' : prop),
+    to_json genid 10 (build genid f) = Some j /\ from_json genid false 10 j = Some p' /\
+    id_of p' = id_of (build genid f) /\
+    (lo_of (build genid f), hi_of (build genid f)) = (1, 1) /\ (lo_of p', hi_of p') = (0, 1) /\
+    eval_c env (build genid f) = 1 /\ eval_c env p' = 0.
+Proof.
+  exists c16_g, c16_pf, (fun _ => 0). eexists. eexists.
+  split; [vm_compute; reflexivity|]. split; [vm_compute; reflexivity|].
+  vm_compute. auto.
+Qed.
+Print Assumptions C16_prefixed_refuted.
+
+(* Non-vacuity: R = Imply(All(x, Any(a,b)), AtLeast(1, [k:(-3,3), Xor(a,b), XNor(c,d)], sign=-1), id="R") — nested,
+   explicit non-default sign, integer leaf, explicit and generated ids — meets every hypothesis of C16_sem_build; the
+   document carries "sign" and only the explicit id; the rebuilt model evaluates like the original (0 at x=a=c=d=1,
+   b=0, k=3; 1 at k=-3). *)
+Definition c16_f : form :=
+  FImply (Some ("R", (0, 1)))
+    (FAll None [FLeaf "x" 0 1; FAny None [FLeaf "a" 0 1; FLeaf "b" 0 1]])
+    (FAtLeast None 1 (Some (-1)) [FLeaf "k" (-3) 3; FXor None [FLeaf "a" 0 1; FLeaf "b" 0 1]; FXNor None [FLeaf "c" 0 1; FLeaf "d" 0 1]]).
+Definition c16_env (k : Z) : ident -> Z := fun i => if String.eqb i "k" then k else if String.eqb i "b" then 0 else 1.
+Definition c16_rt : option prop :=
+  match to_json c16_g 10 (build c16_g c16_f) with Some j => from_json c16_g false 10 j | None => None end.
+Example C16_nonvacuous :
+  jwf c16_g c16_f /\ xnor_leaves c16_f /\ fok (c16_env 3) c16_f /\ fok (c16_env (-3)) c16_f /\
+  (exists j p', to_json c16_g 10 (build c16_g c16_f) = Some j /\ from_json c16_g false 10 j = Some p' /\
+     all_unmerged c16_g false 10 j = true /\
+     (exists f, j = JObj f /\ alookup "id" f = Some (JStr "R") /\
+        exists fq, alookup "consequence" f = Some (JObj fq) /\ alookup "sign" fq = Some (JInt (-1)) /\ alookup "id" fq = None) /\
+     eval (c16_env 3) (build c16_g c16_f) = 0 /\ eval (c16_env 3) p' = 0 /\
+     eval (c16_env (-3)) (build c16_g c16_f) = 1 /\ eval (c16_env (-3)) p' = 1).
+Proof.
+  split; [vm_compute; tauto|]. split; [vm_compute; tauto|].
+  split; [unfold c16_f; cbn [fok]; repeat split; try (vm_compute; discriminate); auto|].
+  split; [unfold c16_f; cbn [fok]; repeat split; try (vm_compute; discriminate); auto|].
+  eexists. eexists. split; [vm_compute; reflexivity|]. split; [vm_compute; reflexivity|].
+  split; [vm_compute; reflexivity|]. split; [|vm_compute; auto].
+  eexists. split; [reflexivity|]. split; [reflexivity|]. eexists. split; [reflexivity|]. split; reflexivity.
+Qed.
+Print Assumptions C16_nonvacuous.
